@@ -154,7 +154,7 @@ fn case<S: Shape>(spec: &AnimSpec, st: usize, r: &mut Rng, acc: &mut Acc, stream
             let (t_in, pause) = real.verif_snapshot();
             println!("  #{k} {:?}: is_ended {e} (model {want}) hook time {:?} pause {:?} | model t {:?} pause {:?} total {:?}", op, t_in, pause.map(|(s, d)| (s.idx(), d)), model.t, model.pause, total);
         }
-        let band = model.ended_in_band() && !on_grid;
+        let band = model.ended_in_band() && (!on_grid || !model.clock.exact);
         if e != want && !band {
             acc.violation(
                 format!("c07:is_ended:{}", if want { "late" } else { "early" }),
